@@ -1158,6 +1158,8 @@ class RZILTransformer(Transformer):
                 return None
 
         self.il_ops_holder.rm_op_by_name(a.get_name())
+        # Keep the result within the width of its type (~0ULL stays -1).
+        result = wrap_to_type(result, ValueType(True, a_type.bit_width))
         name = f'const_{"neg" if result < 0 else "pos"}_{abs(result)}'
         return Number(name, result, a_type)
 
